@@ -1,15 +1,14 @@
-\* control of the progress measure: a zero-width length field (accepted by set_length_field_len,
-\* outside the property's quantifier 1..8) yields empty frames forever without consuming input
+\* control with the pinned (unrepaired) poll_next: FixFramerError = FALSE must violate NoPanic (poll after a framer error)
 CONSTANTS
   FixExtractOverflow = TRUE
-  FixFramerError = TRUE
-  Lfls = {0}
-  HostLfls = {0}
-  Endians = {TRUE}
+  FixFramerError = FALSE
+  Lfls = {8}
+  HostLfls = {}
+  Endians = {TRUE, FALSE}
   DelimKinds = {}
   HostDelimKinds = {}
   WithNoop = FALSE
-  WithLim = FALSE
+  WithLim = TRUE
   Codecs = {"bytes"}
   PayAlpha = {1}
   MaxPay = 0
@@ -21,7 +20,7 @@ CONSTANTS
   WideHostAlpha = {0, 255}
   WideHostExtra = 1
   Modes = {"hostlazy"}
-  HostAlpha = {0}
+  HostAlpha = {0, 255}
   HostExtra = 1
   ChunkMin = 1
   ChunkMax = 16
@@ -30,4 +29,4 @@ CONSTANTS
   MaxErr = 0
   AfterDone = 0
 SPECIFICATION Spec
-PROPERTIES Progress
+INVARIANTS NoPanic
